@@ -419,6 +419,8 @@ class Program:
                 else:
                     text = lines[l1 - 1][c1 - 1:] + ' ' + ' '.join(lines[l1:l2 - 1]) + ' ' + lines[l2 - 1][:c2 - 1]
                 text = ' '.join(text.split())
+                for cur_, pinned_ in (getattr(self, 'type_ren', None) or {}).items():
+                    text = re.sub(r'\b' + re.escape(cur_) + r'\b', pinned_, text)
                 mm = re.match(r'^(?:unsafe )?impl\b\s*(<.*)?$', text)
                 if text.startswith('impl'):
                     body = text[4:].strip()
